@@ -28,7 +28,7 @@ ASSUMPTIONS = [
     "'immediately' = the two status requests are among the frames the console receives within 50 ms (+ link latency) of the new connection",
     "poll deadlines within 0.1 s of a group status arrival or of a connection change are not judged",
 ]
-PROBES = ["c14.poll_in_second_session", "c14.poll_deadline_with_full_buffer", "c14.reconnection_dead_on_arrival", "c14.poll_deadline_in_outage", "c14.silence_after_outage", "c14.poll_write_error", "c14.fin", "c14.rst", "c14.blackhole", "c14.reboot", "c14.write_error", "c14.state_changed_while_down", "c14.unchanged_refresh",
+PROBES = ["c14.foreign_records_in_refresh", "c14.poll_in_second_session", "c14.poll_deadline_with_full_buffer", "c14.reconnection_dead_on_arrival", "c14.poll_deadline_in_outage", "c14.silence_after_outage", "c14.poll_write_error", "c14.fin", "c14.rst", "c14.blackhole", "c14.reboot", "c14.write_error", "c14.state_changed_while_down", "c14.unchanged_refresh",
           "c14.outage_beyond_heartbeat", "c14.second_outage", "c14.poll_after_outage", "c14.poll_fired", "c14.poll_repeated", "c14.poll_pushed_back"]
 
 
@@ -84,6 +84,22 @@ def generate(rng, index: int, tier: str) -> dict:
     else:
         tl.append({"at": t_o, "op": "net.fail_write", "nth": rng.choice([1, 2]), "err": "ECONNRESET"})
         tl.append({"at": t_o + G.EPS, "op": "user.api", "target": ["at"], "call": "check_for_updates", "args": {}})
+    foreign = False
+    if changed and rng.random() < 0.3:
+        # while the client is away the console also starts reporting a group / zone (or AC) the client has never heard of - listed
+        # in front of the known ones in every full status answer from now on: those records are skipped, the rest still counts
+        known_z = {z["zone"] for z in inst["zones"]}
+        known_a = {a["ac"] for a in inst["acs"]}
+        fz = [i for i in range(16) if i not in known_z]
+        fa = [i for i in range(4 if gen == 4 else 8) if i not in known_a]
+        f = {}
+        if fz:
+            f["zone"] = {str(rng.choice(fz)): G.zone_state(rng, gen)}
+        if fa and rng.random() < 0.4:
+            f["ac"] = {str(rng.choice(fa)): G.ac_state(rng, gen)}
+        if f:
+            tl.append({"at": t_o + G.EPS, "op": "console.report_foreign", "foreign": f})
+            foreign = True
     if changed:
         steps = history.console_steps(rng, gen, inst, rng.choice([1, 2, 5]), t_o, 0.0, kinds=["ac", "zone", "ac", "zone", "timer"])
         for s in steps:
@@ -108,7 +124,7 @@ def generate(rng, index: int, tier: str) -> dict:
     tl.append({"at": t_end - 1.0, "op": "user.snapshot", "label": "final"})
     tl.sort(key=lambda s: s["at"])
     return {"gen": gen, "mode": "api", "installation": inst, "knobs": knobs, "timeline": tl, "end": t_end, "class": "reconnect",
-            "info": {"kind": kind, "t_o": t_o, "changed": changed, "down": down, "second": info_second, "dead_on_arrival": dead_on_arrival}}
+            "info": {"kind": kind, "t_o": t_o, "changed": changed, "down": down, "second": info_second, "dead_on_arrival": dead_on_arrival, "foreign": foreign}}
 
 
 def gen_poll(rng) -> dict:
@@ -207,6 +223,8 @@ def execute(sc: dict) -> dict:
         if kinds.count("ac_status_request") > 1 + carry or kinds.count(zreq) > (2 if gen == 4 else 1) + carry:
             V.append(viol("C14.refresh_repeated", {"link": l.id, "first_frames": kinds}))
             break
+    if sc["info"].get("foreign"):
+        probes["c14.foreign_records_in_refresh"] = 1
     if info.get("second") and len(links) >= 3:
         probes["c14.second_outage"] = 1
     if links[1].t_accept - info.get("t_o", 0) > 330.0:
